@@ -21,6 +21,10 @@ uint64_t sim_total_allocs();
 uint64_t sim_total_faults();
 struct InSut { InSut() { sim_in_sut(true); } ~InSut() { sim_in_sut(false); } };
 
+// ------------------------------------------------------------ file layer
+void sim_fopen_fail(int n);                  // the next n fopen() calls made by the SUT on this thread fail (EACCES)
+uint64_t sim_fopen_failed();
+
 // ------------------------------------------------------------ clock
 uint64_t sim_now_us();
 void sim_clock_jump(long seconds);
